@@ -141,7 +141,7 @@ fn gen_form(rng: &mut Rng, literals_with_parens: bool, defined: &mut Vec<String>
                 "car", "(lambda (x) x)", "(/ 6 4)", "2.5", "(* 1.0 3)", "(cons 1 2)", "(list)", "#t", "(if #f #f)", "'(1 . 2)",
                 "(list 1 (list 2 (list 3 '())) \"s\" #\\b)",
                 // values that print as several lines
-                "\"two\\nlines\"", "(list \"a\\nb\" 1)",
+                "\"two\\nlines\"", "(list \"a\\nb\" 1)", "\"ends with a line break\\n\"", "\"\"",
             ]))
             .to_string(),
             "value-kinds",
